@@ -57,7 +57,8 @@ VARIANTS = ("same", "same", "wrong", "welcome_error", "crowded", "solo",
 def configs(tier):
     return [{"spake": "real" if i == 0 else "stub", "reentrant": i % 3 == 1, "faults": i % 4 != 1,
              "dilate": i in (3, 6)} for i in range(8)] + \
-        [{"spake": "stub", "faults": False, "offline_close": True}]
+        [{"spake": "stub", "faults": False, "offline_close": True},
+         {"spake": "stub", "faults": True, "focus": "error_after_happy"}]
 
 
 class Truth:
@@ -106,6 +107,13 @@ def run_one(seed, tape, opts):
         # because the user gave up) while offline, the words are still
         # entered, the network comes back
         variant = tape.pick(("same", "same", "wrong"), "variant_oc")
+    focus = opts.get("focus")
+    if focus == "error_after_happy":
+        # a third party knocks while A and B are connecting (refused, but the
+        # server remembers it), A and B reach the happy state and linger;
+        # connections drop and come back: the re-sent `open` is answered with
+        # an error long after the key was confirmed
+        variant = "crowded"
     welcome = {"error": "sim says no"} if variant == "welcome_error" else \
         {"motd": "hello"}
     # (late_words: the user of an interactive prompt may finish typing the
@@ -131,6 +139,8 @@ def run_one(seed, tape, opts):
     mode = tape.pick(("alloc_set", "set_set", "alloc_input"), "codemode")
     if offline_close:
         mode = "alloc_input"
+    if focus == "error_after_happy":
+        mode = "set_set"
     w.mode = variant + "/" + mode
     code = ca.fixed_code(tape)
     if mode == "set_set":
@@ -196,6 +206,24 @@ def run_one(seed, tape, opts):
                 tail = words + [("close",)]
             base += tail + [("wait_steps", tape.choose(30, "oc_w3")),
                             ("online",)]
+        if focus == "error_after_happy":
+            if c.name == "C":
+                base = [("wait_steps", 2 + tape.choose(30, "c_late")),
+                        ("set_code_from", "A"),
+                        ("wait_event_or_steps", "closed", 200), ("close",)]
+            else:
+                base = list(scripts[c.name]) + \
+                    [("send", ca.gen_payload(tape, 0, c.name, False)),
+                     ("wait_event_or_steps", "message", 400),
+                     ("wait_steps", 10 + tape.choose(60, "linger_f0"))]
+                if tape.choose(3, "bounce") != 0:
+                    # the connection drops and comes back once the session
+                    # is established
+                    base += [("offline",),
+                             ("wait_steps", 3 + tape.choose(30, "off_f")),
+                             ("online",)]
+                base += [("wait_steps", 100 + tape.choose(300, "linger_f")),
+                         ("close",)]
         c.script = base
     def go_offline(c):
         opened = False
@@ -219,7 +247,9 @@ def run_one(seed, tape, opts):
         sim.ev("online", c.name)
         sim.net.port_mode[w.server.port] = "ok"
     w.extra_ops = {"offline": go_offline, "online": go_online}
-    if opts.get("faults", True):
+    if focus == "error_after_happy":
+        ca.pick_faults(tape, w, ("cut", "server_restart"), 1)
+    elif opts.get("faults", True):
         ca.pick_faults(tape, w, ca.CONN_FAULTS + (
             ("restart_unwelcome",) if tape.choose(3, "unw") == 0 else ()), 5)
     order = ca.EventOrderOracle(clients, versions_first=True)
